@@ -1,5 +1,6 @@
 //@file src/append/rolling_file/policy/compound/roll/fixed_window.rs
 //@harness c07_rotate_index_arithmetic unwind=16 strength=bounded bound="the single instance base = u32::MAX, count = 1; moves and directory creation replaced by no-ops" timeout=1200 body=body
+//@harness c07_rotate_top_of_range unwind=16 strength=bounded bound="the single instance base = u32::MAX - 2, count = 3 (window ending at u32::MAX); moves recorded by a model, directory creation a no-op" timeout=1800 replay=no
 // "for all bases and counts": the index arithmetic of rotate() (base + count - 1, i + 1) must not overflow / panic.
 #[cfg(any(kani, verif_replay))]
 #[allow(dead_code, unused)]
@@ -17,6 +18,31 @@ mod __verif_c07_ovf {
         let r = rotate("{}".to_owned(), Compression::None, base, count, PathBuf::from("f"));
         __verif_cover!("reached", true);
         __verif_ob!("rotate#post Ok (no index may overflow for any base and count)", r.is_ok());
+        std::mem::forget(r);
+    }
+    // ---- a window that ends at u32::MAX: every slot is still shifted (base+j-1 -> base+j, from the top down), then the rolled file becomes index base
+    #[cfg(kani)] static mut CALLS: usize = 0;
+    #[cfg(kani)] static mut LAST: [(u8, u8); 4] = [(0, 0); 4];
+    #[cfg(kani)]
+    fn rec_move<P: AsRef<Path>, Q: AsRef<Path>>(s: P, d: Q) -> io::Result<()> {
+        let sb = s.as_ref().as_os_str().as_encoded_bytes(); let db = d.as_ref().as_os_str().as_encoded_bytes();
+        unsafe { if CALLS < 4 { LAST[CALLS] = (sb[sb.len() - 1], db[db.len() - 1]); } CALLS += 1; }
+        Ok(())
+    }
+    #[cfg(kani)]
+    #[kani::proof]
+    #[kani::unwind(16)]
+    #[kani::stub(move_file, rec_move)]
+    #[kani::stub(std::fs::create_dir_all, noop_mkdir)]
+    fn c07_rotate_top_of_range() {
+        unsafe { CALLS = 0; }
+        let r = rotate("{}".to_owned(), Compression::None, u32::MAX - 2, 3, PathBuf::from("f"));
+        let (n, l) = unsafe { (CALLS, LAST) };
+        assert!(r.is_ok(), "rotate#post Ok (no index may overflow for any base and count)");
+        // 4294967294 -> 4294967295, then 4294967293 -> 4294967294, then the rolled file -> 4294967293
+        assert!(n == 3, "rotate#post a window of count archives is shifted by count - 1 moves plus the move of the rolled file, also when it ends at u32::MAX");
+        assert!(l[0] == (b'4', b'5') && l[1] == (b'3', b'4'), "rotate#post archives are shifted from the oldest slot down (base+j-1 -> base+j)");
+        assert!(l[2] == (b'f', b'3'), "rotate#post the rolled file becomes index base");
         std::mem::forget(r);
     }
     #[cfg(kani)]
